@@ -3,6 +3,7 @@ C04 — the reference picture is always the last non-disposable decoded picture.
 -/
 import H263V.Model.System
 import H263V.Lemmas.Store
+import H263V.Lemmas.DecodeTotal
 namespace H263V.Thm.C04
 open H263V H263V.State H263V.Gather H263V.System
 
@@ -97,5 +98,139 @@ theorem decode_refines (s : State) (c : Cur) (s' : State) (c' : Cur)
 theorem init_inv (o : DecOpts) : Inv (State.new o) ∧ (abs (State.new o)).last = none ∧ (abs (State.new o)).ref = none := by
   refine ⟨?_, rfl, rfl⟩
   intro k hk; simp [State.new] at hk
+
+
+/-- The hypothesis of `accept_refines` always holds for a decoded picture: the header parser yields temporal references of at
+most ten bits (8 bits, plus the 2 ETR bits with a custom clock), far below the 0x8000 flag used for disposable pictures. -/
+theorem decoded_tr_small (s : State) (c : Cur) (hdr : PicHdr) (pic : DecPic) (c' : Cur)
+    (h : decodeCore s c = .ok (hdr, pic, c')) : hdr.tr < 0x8000 := by
+  have := Lemmas.DecodeTotal.decodeCore_tr s c hdr pic c' h
+  omega
+
+/-- One successful decode call, with no side condition left: the reported pictures change exactly by the rule. -/
+theorem decode_step_refines (s : State) (hs : Inv s) (c : Cur) (s' : State) (c' : Cur)
+    (h : decodeNextPicture s c = .ok (s', c')) :
+    ∃ hdr pic, decodeCore s c = .ok (hdr, pic, c') ∧ abs s' = (abs s).accept hdr pic ∧ Inv s' := by
+  obtain ⟨hdr, pic, hc, hs'⟩ := decode_refines s c s' c' h
+  have := accept_refines s hs hdr (decoded_tr_small s c hdr pic c' hc) pic
+  rw [← hs'] at this
+  exact ⟨hdr, pic, hc, this.1, this.2⟩
+
+/-- the pictures accepted along a history, oldest first -/
+def accepted (i : Inst) : List Op → List (PicHdr × DecPic)
+  | [] => []
+  | op :: ops =>
+    match op with
+    | .decode =>
+      match decodeCore i.st i.cur with
+      | .ok (hdr, pic, _) => (hdr, pic) :: accepted (step i op).1 ops
+      | _ => accepted (step i op).1 ops
+    | _ => accepted (step i op).1 ops
+
+def Spec.run (a : Spec) (l : List (PicHdr × DecPic)) : Spec := l.foldl (fun a p => a.accept p.1 p.2) a
+
+theorem step_abs (i : Inst) (hi : Inv i.st) (op : Op) :
+    Inv (step i op).1.st ∧
+    abs (step i op).1.st = match op with
+      | .decode => (match decodeCore i.st i.cur with
+          | .ok (hdr, pic, _) => (abs i.st).accept hdr pic
+          | _ => abs i.st)
+      | _ => abs i.st := by
+  cases op with
+  | feed bits => exact ⟨hi, rfl⟩
+  | cleanup => exact ⟨(cleanup_refines i.st).2 hi, (cleanup_refines i.st).1⟩
+  | decode =>
+    simp only [step]
+    cases hd : decodeNextPicture i.st i.cur with
+    | ok r =>
+      obtain ⟨s', c'⟩ := r
+      obtain ⟨hdr, pic, hc, ha, hinv⟩ := decode_step_refines i.st hi i.cur s' c' hd
+      simp only [hc]
+      exact ⟨hinv, ha⟩
+    | err e =>
+      have : ∀ r, decodeCore i.st i.cur ≠ .ok r := by
+        intro r hr
+        unfold decodeNextPicture at hd
+        rw [hr] at hd
+        simp at hd
+      simp only
+      refine ⟨hi, ?_⟩
+      cases hc : decodeCore i.st i.cur with
+      | ok r => exact absurd hc (this r)
+      | err e => rfl
+      | panic m => rfl
+      | fuel => rfl
+    | panic m =>
+      simp only
+      refine ⟨hi, ?_⟩
+      cases hc : decodeCore i.st i.cur with
+      | ok r => unfold decodeNextPicture at hd; rw [hc] at hd; simp at hd
+      | err e => rfl
+      | panic m => rfl
+      | fuel => rfl
+    | fuel =>
+      simp only
+      refine ⟨hi, ?_⟩
+      cases hc : decodeCore i.st i.cur with
+      | ok r => unfold decodeNextPicture at hd; rw [hc] at hd; simp at hd
+      | err e => rfl
+      | panic m => rfl
+      | fuel => rfl
+
+/-- **Every history.**  After any sequence of deliveries, decode calls (accepted or rejected) and clean-ups on a fresh decoder,
+with arbitrary (repeating, wrapping, colliding) temporal references, the two reported pictures are the result of applying the
+rule `last := new; reference := new unless disposable` to the accepted pictures in order. -/
+theorem history_refines (o : DecOpts) (c0 : Cur) (ops : List Op) :
+    abs (run ⟨State.new o, c0⟩ ops).1.st = Spec.run ⟨none, none⟩ (accepted ⟨State.new o, c0⟩ ops) := by
+  suffices h : ∀ (ops : List Op) (i : Inst), Inv i.st → abs (run i ops).1.st = Spec.run (abs i.st) (accepted i ops) from
+    h ops _ (init_inv o).1
+  intro ops
+  induction ops with
+  | nil => intro i _; rfl
+  | cons op rest ih =>
+    intro i hi
+    obtain ⟨hinv, ha⟩ := step_abs i hi op
+    simp only [run]
+    rw [ih _ hinv, ha]
+    cases op with
+    | feed bits => rfl
+    | cleanup => rfl
+    | decode =>
+      simp only [accepted]
+      cases hc : decodeCore i.st i.cur with
+      | ok r => obtain ⟨hdr, pic, c'⟩ := r; rfl
+      | err e => rfl
+      | panic m => rfl
+      | fuel => rfl
+
+/-- What the rule computes: the reference is the most recent accepted picture that is not disposable; the last picture is the
+most recent accepted picture. -/
+theorem spec_run_ref (l : List (PicHdr × DecPic)) (a : Spec) :
+    (Spec.run a l).ref = (match (l.filter (fun p => !p.1.picType.isDisposable)).getLast? with
+      | some p => some p.2
+      | none => a.ref) ∧
+    (Spec.run a l).last = (match l.getLast? with | some p => some p.2 | none => a.last) := by
+  induction l generalizing a with
+  | nil => exact ⟨rfl, rfl⟩
+  | cons p ps ih =>
+    have := ih (a.accept p.1 p.2)
+    simp only [Spec.run, List.foldl_cons] at this ⊢
+    rw [this.1, this.2]
+    constructor
+    · by_cases hd : p.1.picType.isDisposable = true
+      · simp [hd, Spec.accept]
+      · have hd' : p.1.picType.isDisposable = false := by simpa using hd
+        simp only [List.filter_cons, hd', Bool.not_false, ↓reduceIte]
+        cases hf : (ps.filter (fun p => !p.1.picType.isDisposable)).getLast? with
+        | none =>
+          have : ps.filter (fun p => !p.1.picType.isDisposable) = [] := List.getLast?_eq_none_iff.mp hf
+          simp [this, Spec.accept, hd']
+        | some q =>
+          rw [List.getLast?_cons, hf]; rfl
+    · cases hf : ps.getLast? with
+      | none =>
+        have : ps = [] := List.getLast?_eq_none_iff.mp hf
+        simp [this, Spec.accept]
+      | some q => rw [List.getLast?_cons, hf]; rfl
 
 end H263V.Thm.C04
